@@ -87,6 +87,15 @@ CHECKS={
         "DESIGN.md section 4 (C20), 2.4"),
 }
 NA_REASON={}
+FUZZ={"C06","C07","C08","C10","C11","C13","C14","C20"}
+EXH={"C06":"all pairs of sporadic tasks from a small parameter grid","C07":"tiny ROS 2 workloads from a parameter grid","C08":"all small reservations x offsets x step workloads x limit modes","C09":"all budget placements for tiny periods","C10":"all Periodic/Sporadic/short delta-min models with tiny parameters","C11":"all Periodic/Sporadic/short delta-min models with tiny parameters (plain, jittered, summed)"}
+for k in list(CHECKS.keys()):
+    t,l,n,r=CHECKS[k]
+    if k in EXH and "exhaustive" not in t:
+        t=t+"; plus bounded-exhaustive enumeration ("+EXH[k]+")"
+    if k in FUZZ:
+        t=t+"; thorough tier adds coverage-guided fuzzing (libFuzzer, structure-aware byte decoders) of the same check"
+    CHECKS[k]=(t,l,n,r)
 checks=[]
 for p in props:
     i=p["id"]
